@@ -53,7 +53,12 @@ class UnionSpecifier(VersionSpecifier):
             and right.min is not None
         ):
             # (-inf, X.Y.0) | [X.Y+1.0, inf) => != X.Y.*
-            if left.max.is_prerelease or right.min.is_prerelease:
+            if (
+                left.max.is_prerelease
+                or right.min.is_prerelease
+                or left.max.is_postrelease
+                or right.min.is_postrelease
+            ):
                 return None
             left_stable = [left.max.epoch, *left.max.release]
             right_stable = [right.min.epoch, *right.min.release]
